@@ -40,9 +40,11 @@ SUFFIXY = ["a_ket", "_ket", "x_ket_y", "_ketb", "a_ket_bra"]
 
 
 # ---- building -----------------------------------------------------------------------------
-def build_named_ttns(rng, parents, names, phys, bond=None):
+def build_named_ttns(rng, parents, names, phys, bond=None, complex_=True, layout="C"):
     """util.build_ttns with free node names: random complex tensors handed over with their legs
-    in a random order, children attached in a random order (lazy leg permutations exercised)."""
+    in a random order, children attached in a random order (lazy leg permutations exercised).
+    complex_=False: the same kind of state stored in float64 arrays (a complex state whose imaginary parts are zero);
+    layout "F": the arrays are handed over in Fortran memory order."""
     n = len(parents)
     ch = util.children_of(parents)
     bdim = {i: (bond if bond is not None else rng.choice([1, 2, 3])) for i in range(1, n)}
@@ -63,7 +65,9 @@ def build_named_ttns(rng, parents, names, phys, bond=None):
             legs.append(("c", c, bdim[c]))
         legs.append(("o", 0, phys[i]))
         rng.shuffle(legs)
-        t = util.rand_tensor(nprs, tuple(l[2] for l in legs), True, None)
+        t = util.rand_tensor(nprs, tuple(l[2] for l in legs), bool(complex_), None)
+        if layout == "F":
+            t = np.asfortranarray(t)
         node = Node(identifier=names[i])
         if parents[i] is None:
             ttn.add_root(node, t)
@@ -168,6 +172,80 @@ def cplx(z):
 
 def uncplx(p):
     return complex(p[0], p[1])
+
+
+# ---- configurations of the objects the caller hands over (dtype, memory layout) and histories ----------------------
+ODTYPES = ("complex", "real")
+OLAYOUTS = ("C", "F", "strided")
+
+
+def make_factor(nprs, d, odtype="complex", olayout="C"):
+    """a random non-Hermitian d x d site operator; odtype 'real': stored as float64; layouts: C order, Fortran order, a
+    strided view into a larger array. The draws for ('complex', 'C') are the ones the check always made."""
+    m = nprs.standard_normal((d, d))
+    if odtype != "real":
+        m = m + 1j * nprs.standard_normal((d, d))
+    if olayout == "F":
+        m = np.asfortranarray(m)
+    elif olayout == "strided":
+        big = np.zeros((2 * d, 2 * d), dtype=m.dtype)
+        big[::2, ::2] = m
+        m = big[::2, ::2]
+    return m
+
+
+def gen_factor_cfg(rng, sdtype):
+    """operator dtype / layout for one measurement: real operators mostly on real-dtype states (the result dtype then equals
+    the dtype of the state's arrays), all layouts"""
+    if sdtype == "real":
+        od = "real" if rng.random() < 0.7 else "complex"
+    else:
+        od = "real" if rng.random() < 0.3 else "complex"
+    return od, rng.choice(["C", "C", "F", "strided"])
+
+
+def gen_hist_steps(rng, n, sdtype, nsteps):
+    """a history on ONE density-operator network and on the objects it was built from / measured with: measurements
+    (trace, tensor products, TTNO), the same TensorProduct object measured again, the caller going on to use the SOURCE
+    state (apply_operator, canonical_form / move of the centre, normalise(), a measurement on the pure state, an in-place
+    write into an array the source holds), a second network built from the same source. Every measurement on the first
+    network is judged against |psi><psi| of the state it was built from."""
+    steps = []
+    have_tp = False
+    for j in range(nsteps):
+        r = rng.random()
+        if j == 0 and r < 0.5:
+            r = 0.3            # often: a tensor product is the first thing asked of the fresh network
+        if r < 0.12:
+            steps.append({"a": "trace"})
+        elif r < 0.42:
+            m = rng.choice([1, 1, 2, n, rng.randrange(0, n + 1)])
+            od, ol = gen_factor_cfg(rng, sdtype)
+            steps.append({"a": "tp", "sites": rng.sample(range(n), min(m, n)), "oseed": rng.randrange(10 ** 9), "odtype": od, "olayout": ol})
+            have_tp = True
+        elif r < 0.5 and have_tp:
+            steps.append({"a": "tp_again"})
+        elif r < 0.58:
+            steps.append({"a": "ttno", "nterms": rng.randrange(1, 4), "hseed": rng.randrange(10 ** 9), "coeffs": rng.random() < 0.5})
+        elif r < 0.74:
+            m = rng.choice([1, 1, 2, n])
+            od, ol = gen_factor_cfg(rng, sdtype)
+            steps.append({"a": "src_apply", "sites": rng.sample(range(n), min(m, n)), "oseed": rng.randrange(10 ** 9), "odtype": od, "olayout": ol})
+        elif r < 0.82:
+            steps.append({"a": rng.choice(["src_canon", "src_move"]), "node": rng.randrange(n)})
+        elif r < 0.86:
+            steps.append({"a": "src_normalise"})
+        elif r < 0.89:
+            steps.append({"a": "src_inplace", "node": rng.randrange(n), "factor": rng.choice([2.0, -0.5, 3.0])})
+        elif r < 0.93:
+            steps.append({"a": "src_measure", "site": rng.randrange(n), "oseed": rng.randrange(10 ** 9)})
+        else:
+            steps.append({"a": "second", "k": rng.choice([1, 2, 3]), "site": rng.randrange(n), "oseed": rng.randrange(10 ** 9)})
+    # always end on measurements of the first network
+    od, ol = gen_factor_cfg(rng, sdtype)
+    steps.append({"a": "tp", "sites": rng.sample(range(n), rng.choice([1, min(2, n), n])), "oseed": rng.randrange(10 ** 9), "odtype": od, "olayout": ol})
+    steps.append({"a": "trace"})
+    return steps
 
 
 # ==== BEGIN diagram-level tie of the contraction code (model coq/theories/TTNDO/Contr.v) ==========================
@@ -334,8 +412,16 @@ class C16(Prop):
             "random complex unnormalised tensors with shuffled legs, plain / tricky node names (bra suffix inside a name, underscores; "
             "a separate variant with the ket suffix inside a name, outside the stated precondition). Per setup one case each for: build "
             "(structure; plus trace and expectation value of a random operator network with its own child order and leg shuffles, for the diagram-level tie), trace, TTNO expectation (non-Hermitian Hamiltonian with coefficients), tensor products on 0,1,...,N sites "
-            "(random ordered subsets, non-Hermitian factors); plus identifier-string cases. non-trivial = at least 2 nodes or an "
-            "operator case; distinct by case content")
+            "(random ordered subsets, non-Hermitian factors); plus identifier-string cases. Configurations of the caller's objects (per setup / per case): the "
+            "state stored in complex128 (70%) or float64 arrays (30%, a complex state with zero imaginary parts), C or Fortran memory order; site operators complex "
+            "or real (real mostly on real-dtype states), C order / Fortran order / strided view; the tensor-product expectation value asked as the FIRST thing of a "
+            "fresh network (50%) or after a trace() call. Histories (op hist, quick 2 / thorough 5 per setup, oracle only): 1-5 random steps + a closing tensor product "
+            "and trace on ONE network: trace, tensor products (any number of sites, dtype / layout as above), the same TensorProduct object measured again, TTNO "
+            "expectation, the caller going on to use the SOURCE state through the library (apply_operator on 1..N sites, canonical_form, move_orthogonalization_center, "
+            "normalise(), single-site measurement, an in-place scaling of an array the source holds), a second network with another k built from the same (possibly "
+            "advanced) source; every measurement on the first network is judged "
+            "against |psi><psi| of the state it was built from, a second network against the dense state of the source when it is built. non-trivial = at least 2 nodes or an "
+            "operator / history case; distinct by case content")
     clauses = [
         ("F", "from_ttns structure for every tree, dimension assignment and k: node set and dictionary order, unique identifiers, root with "
               "children (ket root, bra root) and shape (k,k,1), ket/bra branches are images of the state's tree with ordered children and "
@@ -385,7 +471,10 @@ class C16(Prop):
         ("V", "value level: bra tensor = conj(ket tensor), root = eye(k), padded slices zero (exact, every build case); the einsum of the model's closed "
               "diagrams over the network's own stored arrays equals trace() / ttno_expectation_value() to 1e-9 relative on every build case; "
               "trace() = <psi|psi>, TTNO expectation = <psi|H|psi> (also for an operator network with its own child order), tensor-product expectation "
-              "= <psi|(x)O|psi> against an independent dense numpy oracle. The value statement for trace() is the O clause above; for the TTNO and "
+              "= <psi|(x)O|psi> against an independent dense numpy oracle, also for states stored in float64 arrays / Fortran order, real / Fortran-ordered / strided "
+              "factors, on a network nothing was asked of before, and along histories (several measurements on one network, operator objects reused, the source "
+              "state advanced through the library API after the build, a second network from the same source; no model for these: oracle only); tensor-product "
+              "calls leave the receiver (trace still <psi|psi>) and the factor matrices unchanged. The value statement for trace() is the O clause above; for the TTNO and "
               "tensor-product expectation values the corresponding value statements are not Coq theorems (diagram level + these ties only)"),
     ]
     trusted_base = ["NumPy eye/pad/reshape/conj entry formulas = the premises build_contracts of C16_trace_value (validated exactly on every build case: "
@@ -400,7 +489,9 @@ class C16(Prop):
                    "no node name contains the ket suffix and the root identifier contains neither suffix: the code filters ket nodes with "
                    "re.match('.*'+ket_suffix, id), which also accepts e.g. the bra image of a node named 'a_ket' (reported; cases of this "
                    "kind are evaluated by the oracle only when the finding C16-id-contains-ket-suffix is recorded)",
-                   "names without newline / regex metacharacters in the suffixes"]
+                   "names without newline / regex metacharacters in the suffixes",
+                   "histories: whatever the caller does to the source state after from_ttns (library calls incl. normalise(), in-place writes into the "
+                   "source's arrays) must not change the network built before: the network owns its tensors"]
 
     def __init__(self):
         self._known_all = {k["id"]: k.get("status") for k in lib.load_known() if k.get("property") == "C16"}
@@ -448,7 +539,9 @@ class C16(Prop):
                 if not any(KSUF in x for x in names):
                     names[rng.randrange(n)] = rng.choice([s for s in SUFFIXY if s not in names])
             setups.append({"parents": par, "k": k, "seed": rng.randrange(10 ** 9), "phys": phys, "names": names, "variant": variant,
-                           "root_id": rng.choice(["ttndo_root", "ttndo_root", "root", "r"])})
+                           "root_id": rng.choice(["ttndo_root", "ttndo_root", "root", "r"]),
+                           # how the caller stores the state: complex128 or float64 arrays (imaginary parts zero), C / Fortran order
+                           "sdtype": ("real" if rng.random() < 0.3 else "complex"), "slayout": ("F" if rng.random() < 0.2 else "C")})
         return setups
 
     def generate(self, ctx, stream, budget_scale=1):
@@ -463,8 +556,13 @@ class C16(Prop):
             sizes = list(range(0, n + 1)) if n <= 5 else sorted(set([0, 1, 2, n] + [rng.randrange(0, n + 1) for _ in range(3)]))
             for m in sizes:
                 sites = rng.sample(range(n), m)
+                od, ol = gen_factor_cfg(rng, st["sdtype"])
+                # fresh: the expectation value is the first thing asked of the network (no earlier trace() on it)
                 cases.append(dict(st, op="tp", sites=sites, oseed=rng.randrange(10 ** 9),
-                                  via=("single" if (m == 1 and rng.random() < 0.5) else "operator")))
+                                  via=("single" if (m == 1 and rng.random() < 0.5) else "operator"),
+                                  odtype=od, olayout=ol, fresh=rng.random() < 0.5))
+            for _ in range(ctx.scale(2, 5)):
+                cases.append(dict(st, op="hist", steps=gen_hist_steps(rng, n, st["sdtype"], rng.randrange(1, 6))))
         # malformed inputs: both sides must reject (non-positive root bond dimension, empty state)
         for k in (0, -1, -3, 1, 2):
             for empty in (False, True):
@@ -494,7 +592,7 @@ class C16(Prop):
     def nontrivial(self, case):
         if case["op"] in ("ids", "reject"):
             return True
-        return len(case["parents"]) >= 2 or case["op"] in ("ttno", "tp")
+        return len(case["parents"]) >= 2 or case["op"] in ("ttno", "tp", "hist")
 
     def distribution(self, cases):
         c = Counter()
@@ -504,8 +602,17 @@ class C16(Prop):
                 c[f"nodes={len(x['parents'])}"] += 1
                 c[f"k={x['k']}"] += 1
                 c["names:" + x["variant"]] += 1
+                c["state-dtype:" + x.get("sdtype", "complex")] += 1
+                c["state-layout:" + x.get("slayout", "C")] += 1
             if x["op"] == "tp":
                 c[f"factors={len(x['sites'])}"] += 1
+                c[f"tp:state-{x.get('sdtype', 'complex')}/op-{x.get('odtype', 'complex')}"] += 1
+                c["tp:op-layout:" + x.get("olayout", "C")] += 1
+                c["tp:fresh-network" if x.get("fresh") else "tp:after-trace"] += 1
+            if x["op"] == "hist":
+                c[f"hist:steps={len(x['steps'])}"] += 1
+                for stp in x["steps"]:
+                    c["hist-step:" + stp["a"]] += 1
         c.update(self._stats)
         return dict(c)
 
@@ -513,7 +620,8 @@ class C16(Prop):
     def _setup(self, case):
         rng = random.Random(case["seed"])
         names = case["names"]
-        ttns = build_named_ttns(rng, case["parents"], names, case["phys"], bond=case.get("bond"))
+        ttns = build_named_ttns(rng, case["parents"], names, case["phys"], bond=case.get("bond"),
+                                complex_=(case.get("sdtype", "complex") != "real"), layout=case.get("slayout", "C"))
         if case.get("canon", case["seed"] % 3 == 0):
             # a state handed over in canonical form (recorded orthogonality centre at a random node)
             ttns.canonical_form(random.Random(case["seed"] + 1).choice(list(ttns.nodes)))
@@ -611,12 +719,11 @@ class C16(Prop):
         if op == "tp":
             nprs = np.random.RandomState(case["oseed"] % (2 ** 31))
             sites = [names[i] for i in case["sites"]]
-            mats = []
-            for nm in sites:
-                d = dims[nm]
-                mats.append(nprs.standard_normal((d, d)) + 1j * nprs.standard_normal((d, d)))
+            mats = [make_factor(nprs, dims[nm], case.get("odtype", "complex"), case.get("olayout", "C")) for nm in sites]
+            keep = [np.array(m) for m in mats]        # the factors as handed over (the call must not change them)
             opd = {nm: m for nm, m in zip(sites, mats)}
-            ob["receiver_trace_before"] = cplx(ttndo.trace())
+            if not case.get("fresh", False):
+                ob["receiver_trace_before"] = cplx(ttndo.trace())
             rec = Recorder(ttndo, mats)
             with rec:
                 if case["via"] == "single" and len(sites) == 1:
@@ -633,8 +740,108 @@ class C16(Prop):
             ob["scale"] = float(abs(nrm) * max(1.0, float(np.prod([np.linalg.norm(m, 2) for m in mats])) if mats else 1.0))
             # the receiver still represents the same state
             ob["receiver_trace_after"] = cplx(ttndo.trace())
+            ob["factors_unchanged"] = bool(all(np.array_equal(a, b) for a, b in zip(keep, mats)))
+            return ob
+        if op == "hist":
+            ob["steps"] = self._impl_hist(case, ttns, ref, ttndo, psi, ids, dims)
             return ob
         raise ValueError(op)
+
+    def _impl_hist(self, case, ttns, ref, ttndo, psi, ids, dims):
+        """runs the history of the case; one record per step. Measurements on the first network carry the dense reference
+        computed from psi = the state the network was built from; `second` networks the state the source represents when
+        they are built (dense contraction of a deep copy of the source at that moment)."""
+        names = case["names"]
+        nrm = complex(np.vdot(psi, psi))
+        recs = []
+        last_tp = None
+
+        def measure_tp(net, vec, opd, mats):
+            v = net.operator_expectation_value(opd if isinstance(opd, TensorProduct) else TensorProduct(opd))
+            n2 = abs(np.vdot(vec, vec))
+            return {"value": cplx(v), "ref": cplx(np.vdot(vec, util.dense_tp(dict(opd), ids, dims) @ vec)),
+                    "scale": float(n2 * max(1.0, float(np.prod([np.linalg.norm(m, 2) for m in mats])) if mats else 1.0))}
+        for stp in case["steps"]:
+            a = stp["a"]
+            rec = {"a": a}
+            try:
+                if a == "trace":
+                    rec.update(value=cplx(ttndo.trace()), ref=cplx(nrm), scale=float(abs(nrm)))
+                elif a == "tp":
+                    nprs = np.random.RandomState(stp["oseed"] % (2 ** 31))
+                    sites = [names[i] for i in stp["sites"]]
+                    mats = [make_factor(nprs, dims[nm], stp["odtype"], stp["olayout"]) for nm in sites]
+                    keep = [np.array(m) for m in mats]
+                    tp = TensorProduct({nm: m for nm, m in zip(sites, mats)})
+                    rec.update(measure_tp(ttndo, psi, tp, keep))
+                    rec["factors_unchanged"] = bool(list(tp.keys()) == sites and all(np.array_equal(k, tp[nm]) for k, nm in zip(keep, sites)))
+                    last_tp = (tp, keep)
+                    rec["sites"] = stp["sites"]
+                elif a == "tp_again":
+                    if last_tp is None:
+                        continue
+                    # the reference is computed from the factors as they were handed over the first time
+                    tp, keep = last_tp
+                    ref_opd = {nm: k for nm, k in zip(list(tp.keys()), keep)} if len(tp) == len(keep) else dict(tp)
+                    v = ttndo.operator_expectation_value(tp)
+                    rec.update(value=cplx(v), ref=cplx(np.vdot(psi, util.dense_tp(ref_opd, ids, dims) @ psi)),
+                               scale=float(abs(nrm) * max(1.0, float(np.prod([np.linalg.norm(m, 2) for m in keep])) if keep else 1.0)))
+                elif a == "ttno":
+                    hr = random.Random(stp["hseed"])
+                    ham = util.rand_ham(hr, ids, dims, stp["nterms"], hermitian=False, coeffs=stp["coeffs"])
+                    H = util.dense_ham(ham, ids, dims)
+                    ttno = util.TTNO.from_hamiltonian(copy.deepcopy(ham), ref)
+                    rec.update(value=cplx(ttndo.operator_expectation_value(ttno)), ref=cplx(np.vdot(psi, H @ psi)),
+                               scale=float(abs(nrm) * max(1.0, np.linalg.norm(H, 2))))
+                elif a == "second":
+                    vec = util.dense_vec(copy.deepcopy(ttns), ids)
+                    net = from_ttns(ttns, root_id=case["root_id"], root_bond_dim=stp["k"])
+                    n2 = complex(np.vdot(vec, vec))
+                    rec.update(value=cplx(net.trace()), ref=cplx(n2), scale=float(abs(n2)))
+                    recs.append(rec)
+                    rec = {"a": "second_tp"}
+                    nm = names[stp["site"]]
+                    m = make_factor(np.random.RandomState(stp["oseed"] % (2 ** 31)), dims[nm])
+                    rec.update(measure_tp(net, vec, {nm: m}, [np.array(m)]))
+                else:
+                    # the caller goes on using the SOURCE state; nothing is judged here, failures of these calls belong to
+                    # other properties and end the history
+                    try:
+                        if a == "src_apply":
+                            nprs = np.random.RandomState(stp["oseed"] % (2 ** 31))
+                            sites = [names[i] for i in stp["sites"]]
+                            ttns.apply_operator(TensorProduct({nm: make_factor(nprs, dims[nm], stp["odtype"], stp["olayout"]) for nm in sites}))
+                        elif a == "src_canon":
+                            ttns.canonical_form(names[stp["node"]])
+                        elif a == "src_move":
+                            if ttns.orthogonality_center_id is None:
+                                ttns.canonical_form(names[stp["node"]])
+                            else:
+                                ttns.move_orthogonalization_center(names[stp["node"]])
+                        elif a == "src_measure":
+                            nm = names[stp["site"]]
+                            ttns.single_site_operator_expectation_value(nm, make_factor(np.random.RandomState(stp["oseed"] % (2 ** 31)), dims[nm]))
+                        elif a == "src_normalise":
+                            rec["centre"] = ttns.orthogonality_center_id
+                            ttns.normalise()
+                        elif a == "src_inplace":
+                            # the caller scales an array its own state holds, in place
+                            arr = ttns.tensors[names[stp["node"]]]
+                            arr *= stp["factor"]
+                        else:
+                            raise ValueError(a)
+                    except Exception as e:  # noqa
+                        rec["src_exc"] = f"{type(e).__name__}: {e}"
+                        recs.append(rec)
+                        break
+            except Exception as e:  # noqa
+                import traceback
+                rec["exc"] = f"{type(e).__name__}: {e}"
+                rec["tb"] = traceback.format_exc()[-800:]
+                recs.append(rec)
+                break
+            recs.append(rec)
+        return recs
 
     def impl(self, ctx, cases):
         out = []
@@ -819,6 +1026,9 @@ class C16(Prop):
         if "exception" in ob:
             msg = f"{op} on names {case['names']}: raised {ob['exception']}"
             return self._suffix_gate(case, msg) if outside else msg
+        if op == "hist":
+            msg = self._oracle_hist(case, ob)
+            return (self._suffix_gate(case, msg) if outside else msg) if msg else None
         nrm = uncplx(ob["norm2"])
         val = uncplx(ob["value"])
         if op == "trace":
@@ -840,9 +1050,14 @@ class C16(Prop):
             ref = uncplx(ob["ref"])
             sc = ob["scale"]
             if self._close(val, ref, sc):
-                if not self._close(uncplx(ob["receiver_trace_after"]), uncplx(ob["receiver_trace_before"]), abs(nrm)):
-                    return (f"tensor product on sites {case['sites']}: the call changed the receiver, its trace went from "
-                            f"{uncplx(ob['receiver_trace_before'])} to {uncplx(ob['receiver_trace_after'])}")
+                before = uncplx(ob["receiver_trace_before"]) if "receiver_trace_before" in ob else nrm
+                for want in (before, nrm):
+                    if not self._close(uncplx(ob["receiver_trace_after"]), want, abs(nrm)):
+                        msg = (f"tensor product on sites {case['sites']}: the call changed the receiver, its trace went from "
+                               f"{want} to {uncplx(ob['receiver_trace_after'])}")
+                        return self._suffix_gate(case, msg) if outside else msg
+                if ob.get("factors_unchanged") is False:
+                    return f"tensor product on sites {case['sites']}: the call changed the operator matrices it was given"
                 return None
             m = len(case["sites"])
             if m == 0 and self._close(val, uncplx(ob["ref_sp"]), abs(nrm) ** 2):
@@ -851,8 +1066,38 @@ class C16(Prop):
             if m >= 2 and self._close(val, uncplx(ob["ref_last"]), sc):
                 return (f"tensor product of {m} factors: value {val} equals the value with only the last factor applied, "
                         f"<psi|(x)O|psi> = {ref} [last-only] (tree {case['parents']}, sites {case['sites']}, k={case['k']})")
-            msg = f"tensor product on sites {case['sites']}: value {val} but <psi|(x)O|psi> = {ref} (tree {case['parents']}, k={case['k']})"
+            msg = (f"tensor product on sites {case['sites']}: value {val} but <psi|(x)O|psi> = {ref} (tree {case['parents']}, k={case['k']}, state stored as "
+                   f"{case.get('sdtype', 'complex')}/{case.get('slayout', 'C')}, factors {case.get('odtype', 'complex')}/{case.get('olayout', 'C')}, "
+                   f"{'first call on the fresh network' if case.get('fresh') else 'after a trace() call'})")
             return self._suffix_gate(case, msg) if outside else msg
+        return None
+
+    def _oracle_hist(self, case, ob):
+        """every measurement of the history against its dense reference; the first deviation is reported with the steps
+        that led to it"""
+        done = []
+        for rec in ob["steps"]:
+            a = rec["a"]
+            if "src_exc" in rec:
+                self._stats["hist:source-call-raised"] += 1
+                return None
+            msg = None
+            if "exc" in rec:
+                msg = f"step {len(done)} ({a}) raised {rec['exc']}"
+            elif "value" in rec:
+                v, r = uncplx(rec["value"]), uncplx(rec["ref"])
+                if not self._close(v, r, rec["scale"]):
+                    what = {"trace": "trace()", "tp": f"tensor product on sites {rec.get('sites')}", "tp_again": "the same TensorProduct object measured again",
+                            "ttno": "TTNO expectation value", "second": "trace() of a second network built from the same source",
+                            "second_tp": "single-site expectation value on a second network built from the same source"}[a]
+                    msg = f"step {len(done)}: {what} = {v} but the pure-state value is {r}"
+                elif rec.get("factors_unchanged") is False:
+                    msg = f"step {len(done)}: the call changed the TensorProduct / operator matrices it was given"
+            if msg is not None:
+                msg = (f"history on one network (tree {case['parents']}, k={case['k']}, state stored as {case.get('sdtype', 'complex')}/"
+                       f"{case.get('slayout', 'C')}) after steps {done}: {msg}")
+                return msg
+            done.append(a + (str(rec["sites"]) if "sites" in rec else ""))
         return None
 
     def classify(self, case, what, known):
